@@ -167,6 +167,13 @@ class Analyzer:
     def cursor_name(self, e):
         return e.id if isinstance(e, ast.Name) else None
 
+    def cursor_base(self, e):
+        # `i` or `i + c` (c >= 0): the cursor the expression is measured from
+        if isinstance(e, ast.BinOp) and isinstance(e.op, ast.Add) and isinstance(e.left, ast.Name) and isinstance(e.right, ast.Constant) and \
+                isinstance(e.right.value, int) and e.right.value >= 0:
+            return e.left.id
+        return e.id if isinstance(e, ast.Name) else None
+
     def reader_call(self, call, st, record=True, target=None):
         nm = callee_name(call)
         if nm not in self.readers:
@@ -209,7 +216,7 @@ class Analyzer:
                 adv_arg = True
                 st["$consumed"] = True
         if record:
-            self.calls.append({"node": call, "callee": nm, "k": base.k, "consumed": bool(st.get("$consumed")), "arg": bname, "target": target, "lt": base.lt})
+            self.calls.append({"node": call, "callee": nm, "k": base.k, "consumed": bool(st.get("$consumed")), "arg": bname, "argbase": (self.cursor_base(argi) if argi is not None else None), "target": target, "lt": base.lt})
         if rd.kind == "peek":
             v = Val(MAYBE if sm["mayNull"] else NONNULL, {}, False, lt_of=([bname] if (sm["NLT"] and bname) else []))
             return None, v
@@ -504,7 +511,7 @@ class Analyzer:
                     if r[1] is None:              # index-only reader
                         c, _v, consumed_after = r
                         argname = self.calls[-1]["arg"]
-                        mono = argname == name
+                        mono = argname == name or self.calls[-1].get("argbase") == name      # i = skip(t, i + 1): still measured from i, forward only
                         strict = c.k > (old.k if isinstance(old, Cur) else -1) and mono
                         self.kill_rels(st, {name}, keep_mono=({name} if mono else ()))
                         if mono and isinstance(old, Cur):
